@@ -13,8 +13,8 @@ makes every function of Model/Edit.lean the same function for `I1` and `I2`.
 Instantiated with `NameCmp.model` (`_same_attr_name`) and `NameCmp.spelled` (`==`), `Agree` is
 `NoSpellingClash`: no two tokens of `T` are different spellings of one name.
 -/
-namespace Nima
-open Node EditM
+namespace Nima.NameAgree
+open Nima Node EditM
 
 mutual
   def toks : Node → List Text
@@ -863,4 +863,4 @@ theorem mapping_model_eq_spelled (s : Node) (key : Text) (v : Node)
   have hk : KeyOK (toks s ++ keyToks key) key := keyOK_keyToks key _ (fun t ht => by simp [ht])
   exact ⟨setGetItem_agree hA s key hs hk, setSetItem_agree hA s key v hs hk.1, setDelItem_agree hA s key hs hk.1⟩
 
-end Nima
+end Nima.NameAgree
